@@ -186,9 +186,10 @@ PLAN = {
     "C15": dict(
         title="Element-wise tensor arithmetic is exact, rank-generic and shape-checked",
         level="proof",
-        verus=["C15_tensor_ops.rs", "C15_transpose.rs", "C15_mean_pick.rs"],
+        verus=["C15_tensor_ops.rs", "C15_transpose.rs", "C15_mean_pick.rs", "C15_dot_product.rs"],
         kani=True,
-        undecided_clauses=["iterator zips over more cells than the listed small shapes (the element formula itself is proved for every cell)",
+        undecided_clauses=["iterator zips of the element-wise operations over more cells than the listed small shapes (the element formula itself is proved for every cell); "
+                           "dot and the outer product are proved as whole functions for every size (units tensor.dot, tensor.product; R22, R31, R50)",
                            "nested-list add / div (recursion over Tensor)"],
     ),
     "C16": dict(
